@@ -132,6 +132,9 @@ func rejectWhy(grammar, s string) string {
 func C09(run *ev.Run, tier string) map[string]interface{} {
 	thorough := tier == "thorough"
 	st := &c09stats{}
+	// the second evaluation on a long-lived interpreter (itp) is limited to strings of at most three
+	// blank-separated tokens and to the strings of the directed families (those are not blank-joined)
+	itp.WarmFilter = func(expr string) bool { return strings.Count(expr, " ") <= 2 || len(expr) > 64 }
 	type job struct{ grammar, s, why string }
 	ch := make(chan job, 4096)
 	var wg sync.WaitGroup
